@@ -5,7 +5,9 @@
 (* process) stays empty.  An input either hands over its files explicitly (HLib[i] = <<>>: all files of its force field, a new  *)
 (* list per call) or names a LIBRARY (HLib[i] = the files of the catalogue entry that make up the library) and leaves inpath at  *)
 (* its default: the call then reads  default-inpath files, then the library files.  Deviations: inpathLeak (the library files   *)
-(* are appended to the default inpath list: seed-C13-1), cacheFF (loaded force fields kept in a module-level cache - the   *)
+(* are appended to the default inpath list: seed-C13-1), readerCache (file content cached by path: seed3-C13-2).  The file system  *)
+(* is state OUTSIDE the process: inputs of mode "path" write their own definitions to ONE shared path before the call (a file      *)
+(* rewritten between calls); Run reads the current content - with readerCache the content the process saw first, cacheFF (loaded force fields kept in a module-level cache - the   *)
 (* retagged exclusion distances and the grown citation sets of an earlier run leak), writerAppend (output appended to an       *)
 (* existing file), flushLate (the queue is written out by the NEXT call).                                                      *)
 EXTENDS IndependenceCat, IndependenceHist, Json
@@ -16,24 +18,32 @@ HCase(id) == IF id = 29 THEN CaseFail ELSE CHOOSE c \in AllCases : c.id = id
 HIn3 == <<HCase(26), HCase(27), HCase(21)>>
 HIn4 == <<HCase(26), HCase(27), HCase(21), CaseFail>>
 CONSTANTS HInputs, HLib
+\* HLib[i] = [mode, files]: "all" = every file of the force field, explicit inpath (a new list per call); "lib" = the files make up a library,
+\* inpath left at its default; "path" = the files' content is written to the one shared path, which is then passed as inpath
+HL(mode, files) == [mode |-> mode, files |-> files]
 HInL == <<HCase(33), HCase(33), HCase(26)>>       \* the same residue graph on library X, on library Y, and an input with explicit files
-HLibL == <<<<1>>, <<2>>, <<>>>>
-NoLib3 == <<<<>>, <<>>, <<>>>>
-NoLib4 == <<<<>>, <<>>, <<>>, <<>>>>
+HLibL == <<HL("lib", <<1>>), HL("lib", <<2>>), HL("all", <<>>)>>
+HInP == <<HCase(33), HCase(33), HCase(26)>>       \* the shared path holding the definitions X, then rewritten to Y (or the other way round)
+HLibP == <<HL("path", <<1>>), HL("path", <<2>>), HL("all", <<>>)>>
+NoLib3 == <<HL("all", <<>>), HL("all", <<>>), HL("all", <<>>)>>
+NoLib4 == <<HL("all", <<>>), HL("all", <<>>), HL("all", <<>>), HL("all", <<>>)>>
 FileRec(F, k) == [syn |-> F.files[k].syn, src |-> k, defs |-> F.files[k].defs]
-LibFiles(i) == [k \in DOMAIN HLib[i] |-> FileRec(FFof(HInputs[i]), HLib[i][k])]
+LibFiles(i) == [k \in DOMAIN HLib[i].files |-> FileRec(FFof(HInputs[i]), HLib[i].files[k])]
 
-P0 == [ff |-> <<>>, fs |-> [i \in 1..Len(HInputs) |-> <<>>], queue |-> <<>>, dflt |-> <<>>]
+P0 == [ff |-> <<>>, fs |-> [i \in 1..Len(HInputs) |-> <<>>], queue |-> <<>>, dflt |-> <<>>, rc |-> <<>>]
 \* what one call reads: explicit files, or (default inpath) ++ (library files)
-FilesRead(i, dflt) == IF HLib[i] = <<>> THEN BasePresentation(FFof(HInputs[i])) ELSE dflt \o LibFiles(i)
+\* rc = what a reader that caches by path holds for the shared path (<<>> = nothing yet)
+FilesRead(i, dflt, rc) == IF HLib[i].mode = "all" THEN BasePresentation(FFof(HInputs[i]))
+                          ELSE IF HLib[i].mode = "lib" THEN dflt \o LibFiles(i)
+                          ELSE IF Dev.readerCache /\ rc # <<>> THEN rc ELSE LibFiles(i)
 FreshRes(i) == LET c == HInputs[i]
-                   L == Loaded(FFof(c), FilesRead(i, <<>>), FALSE)
+                   L == Loaded(FFof(c), FilesRead(i, <<>>, <<>>), FALSE)
                    o == PRun(c, L, FreshBx(FFof(c), L)).out
                IN [out |-> o, file |-> IF o.err = "" THEN <<o>> ELSE <<>>]
 RunInMC(i, p) ==
   LET c == HInputs[i]
       cached == Dev.cacheFF /\ c.ff \in DOMAIN p.ff
-      L == IF cached THEN p.ff[c.ff].L ELSE Loaded(FFof(c), FilesRead(i, p.dflt), FALSE)
+      L == IF cached THEN p.ff[c.ff].L ELSE Loaded(FFof(c), FilesRead(i, p.dflt, p.rc), FALSE)
       bx0 == IF cached THEN p.ff[c.ff].bx ELSE FreshBx(FFof(c), L)
       r == PRun(c, L, bx0)
       ok == r.out.err = ""
@@ -47,14 +57,15 @@ RunInMC(i, p) ==
       fs2 == flush(p.fs, flushNow, 1)
   IN [res |-> [out |-> r.out, file |-> fs2[i]],
       proc |-> [ff |-> IF Dev.cacheFF THEN (c.ff :> [L |-> L, bx |-> r.bx]) @@ p.ff ELSE p.ff, fs |-> fs2, queue |-> q2,
-               dflt |-> IF Dev.inpathLeak /\ HLib[i] # <<>> THEN p.dflt \o LibFiles(i) ELSE p.dflt]]
+               dflt |-> IF Dev.inpathLeak /\ HLib[i].mode = "lib" THEN p.dflt \o LibFiles(i) ELSE p.dflt,
+               rc |-> IF Dev.readerCache /\ HLib[i].mode = "path" /\ p.rc = <<>> THEN LibFiles(i) ELSE p.rc]]
 FreshTab == TLCEval([i \in 1..Len(HInputs) |-> FreshRes(i)])
 FreshOf(i) == FreshTab[i]
 NIn == Len(HInputs)
 
 OutJ(o) == [err |-> o.err, atoms |-> o.atoms, ints |-> SetToSeq({[x |-> x, n |-> o.ints[x]] : x \in DOMAIN o.ints}), nrexcl |-> o.nrexcl, cites |-> SetToSeq(o.cites)]
 EdgeSeq(E) == SetToSortSeq({<<MinOf(e), MaxOf(e)>> : e \in E}, LAMBDA x, y : x[1] < y[1] \/ (x[1] = y[1] /\ x[2] < y[2]))
-CaseJ(c) == [id |-> c.id, ff |-> c.ff, n |-> c.n, start |-> c.start, rn |-> c.rn, fi |-> c.fi, E |-> EdgeSeq(c.E), mods |-> c.mods]
+CaseJ(c) == [id |-> c.id, ff |-> c.ff, n |-> c.n, start |-> c.start, rn |-> c.rn, fi |-> c.fi, E |-> EdgeSeq(c.E), mods |-> c.mods, mark |-> c.mark]
 \* S->I: every history with the results the specification gives to each of its runs (only the equality classes matter to the
 \* harness: it compares each run with the fresh-process run of the same input; the expected projection is checked as well)
 ExportHist == (Len(h) >= 1) => PrintT(<<"HIST", ToJson([h |-> h, same |-> [k \in DOMAIN h |-> res[k] = FreshOf(h[k])]])>>)
